@@ -459,4 +459,8 @@ def generate(repo):
     ti.function('Integer.eq', coqname='int_eq', param_types={'self._buffer': 'list Z', 'rhs': 'list Z'},
                 state=['self._buffer'], stmts=(r'^return self\._buffer == rhs\._buffer', r'^return self\._buffer == rhs\._buffer'))
     header = HEADER.replace('lib.Harness.', 'lib.Harness lib.MBFPrims.')
-    return header + '\n'.join(t.out) + '\n'
+    # provenance comments without path prefix and line numbers: the text (and with it the compiled proofs)
+    # stays identical when numbers.py is edited elsewhere or a scratch worktree is checked
+    import re
+    out = [re.sub(r'^\(\* .*?numbers\.py:\d+ (.*) \*\)$', r'(* numbers.py \1 *)', x) for x in t.out]
+    return header + '\n'.join(out) + '\n'
